@@ -136,13 +136,10 @@ pub fn def(ctx: &Ctx) -> PropertyDef {
     let workers = ctx.workers;
     let mut scenarios: Vec<Scenario> = Vec::new();
     for (p, frozen) in programs() {
-        scenarios.push(program_scenario(p, oracle(frozen), move |_c| IlvCfg {
-            bounds: if quick { vec![0, 1, 2] } else { vec![0, 1, 2, 3] },
-            workers,
-            split_depth: 6,
-            time_cap_s: Some(if quick { 7.0 } else { 400.0 }),
-            max_executions: None,
-        }));
+        scenarios.push({
+                let nthreads = p.threads.len();
+                program_scenario(p, oracle(frozen), move |c| crate::harness::ilv::tier_cfg(c, nthreads))
+            });
     }
     for (pool, buffer) in [(1usize, 1usize), (1, 2), (1, 3)] {
         let name = seq_spec(ctx, pool, buffer).name;
